@@ -87,6 +87,7 @@ type Plan struct {
 	Listener   bool         `json:"listener,omitempty"` // attach an event listener
 	Loopback   bool         `json:"loopback,omitempty"` // C20: a PCAP-over-IP endpoint served over a real loopback socket (not replayable)
 	NoOracle   bool         `json:"no_oracle,omitempty"`
+	Yield      bool         `json:"yield,omitempty"` // gates inside the converter job: other steps may run between two rounds of conversions
 	Poip       bool         `json:"poip,omitempty"` // C20: packets fed to the PCAP-over-IP handler (not replayable)
 	// weights for the scheduler (per mille): probability to prefer a
 	// background step over an API step when both are enabled
@@ -232,6 +233,10 @@ func Gen(prop, tier string, seed, run uint64) Plan {
 	nf := len(netsim.Build(&p.Net).Files)
 	nStreams := len(p.Net.Convs)
 	p.Knobs = Knobs{NumCPU: 1, SnapEvery: 100_000, CleanupMinFree: 16 << 20}
+	switch prop {
+	case "C09", "C16", "C06", "C10", "C13", "C20":
+		p.Yield = run%3 == 1
+	}
 	if r.IntN(3) == 0 {
 		p.Knobs.SnapEvery = uint64(5 + r.IntN(100))
 	}
@@ -689,6 +694,25 @@ func Gen(prop, tier string, seed, run uint64) Plan {
 		}
 		p.Poip = true
 	}
+	if p.Yield && useConv && len(p.Converters) > 0 && (prop == "C09" || prop == "C16") && !p.Poip && run%7 != 6 && r.IntN(3) == 0 {
+		// quiet plan around one converter job: a single tag without payload or time
+		// filter (an import that only extends streams does not make it pending)
+		// with a converter attached, captures imported one by one in order. What
+		// matters is what happens when an import is applied between two rounds of
+		// the converter job and nothing else comes along afterwards to start jobs.
+		def := []string{"id:0:", "sport:80,443,1337,8080,31337,53", "protocol:tcp", "cport:1:"}[r.IntN(4)]
+		mutOps = []Op{
+			{C: CMut, K: "AddTag", Name: "service/t", Color: "#123456", Def: def},
+			{C: CMut, K: "SetConv", Name: "service/t", Convs: []string{p.Converters[r.IntN(len(p.Converters))]}},
+		}
+		if len(viewOps) > 3 {
+			viewOps = viewOps[:3]
+		}
+		impOps = nil
+		for i := 0; i < nf; i++ {
+			impOps = append(impOps, Op{C: CImp, K: "Import", Files: []int{i}})
+		}
+	}
 	for _, o := range impOps {
 		add(o)
 	}
@@ -724,6 +748,10 @@ func Gen(prop, tier string, seed, run uint64) Plan {
 		// the tag graph must stay well-formed (atomicity of that one call is not judged)
 		o := p.Ops[len(impOps)+r.IntN(len(mutOps))]
 		p.WriteFail = append(p.WriteFail, WriteFault{Kind: "api", OpID: o.ID, Limit: []int64{1, 16, 100}[r.IntN(3)]})
+	}
+	if prop == "C11" && len(p.WriteFail) == 0 && r.IntN(4) == 0 {
+		// the calls must stay total and the graph well-formed on a restarted service too
+		p.Restarts = []int{3 + r.IntN(25)}
 	}
 	if prop == "C12" && r.IntN(3) == 0 && len(mutOps) > 0 {
 		// disk full while an API call saves the state
